@@ -2,13 +2,16 @@
 
 spec: GrpcProxy.tla (+ GrpcProxy_MC.tla universes / behaviour generator)
 TLC : the statement's invariants (ordered exactly-once delivery per direction, caller status =
-      backend status, NotFound contacts nobody, one connection per backend, dropped after the
-      clean-up) on (a) the complete per-call universe and (b) histories of <=3 calls with table
-      changes and clean-up ticks between them; every examined transition that completes a call
-      or a closing tick is printed as a behaviour with what an observer must see
+      backend status, NotFound contacts nobody, one connection per backend counted at the backend's
+      listener, dropped after the clean-up, no call cancelled by another call's race for the pool) on
+      four configurations: (a) the complete per-call universe, (b) histories of <=3 calls with table
+      changes and clean-up ticks, (c) bursts of 2-3 overlapping first calls with every interleaving of
+      their pool accesses, (d) outages (BackendDown / BackendUp) with calls during the outage, recovery,
+      leaving the table and clean-up; every examined transition that completes a call, a burst or a
+      closing tick is printed as a behaviour with what an observer must see
 bind: every behaviour replayed against a real grpc.Server with main.newGrpcProxy's options,
-      real grpc_testing.TestService backends behind counting listeners and a real client
-      (harness/main/c16_test.go)"""
+      real grpc_testing.TestService backends behind counting listeners (stopped and restarted on the
+      same address for outages) and a real client (harness/main/c16_test.go)"""
 import json, os, random, threading, time
 from lib import vf
 
@@ -82,10 +85,12 @@ def corrupt(b, how):
 def run(ctx):
     ctx.level = "model_checking"
     ctx.assumptions += [
-        "universe: 2 backends; route slots {/grpc.testing.TestService/, h1/grpc.testing.TestService/ (+ /grpc.testing.TestService/UnaryCall in thorough)}; dsthost in {none, h1, h2 (no route: host-less routes apply)}; unary / client-stream / server-stream / bidi calls with <=2 messages per direction, backend scripts eager/echo/late/early-finish, headers {none, SetHeader, SendHeader}, trailers {none, some}, status {OK, NotFound, Internal, 42}; metadata {none, one key, repeated values + -bin key}; histories of <=3 calls with <=2 table changes and <=2 clean-up ticks",
-        "calls of one history are sequential (the statement quantifies over inputs and histories, not schedules); per-call behaviours run 8 at a time over warmed-up connections",
+        "universe: 2 backends; route slots {/grpc.testing.TestService/, h1/grpc.testing.TestService/ (+ /grpc.testing.TestService/UnaryCall in thorough)}; dsthost in {none, h1, h2 (no route: host-less routes apply)}; unary / client-stream / server-stream / bidi calls with <=2 messages per direction, backend scripts eager/echo/late/early-finish, headers {none, SetHeader, SendHeader}, trailers {none, some}, status {OK, NotFound, Internal, 42}; metadata {none, one key, repeated values + -bin key}; histories of <=3 calls with <=2 table changes and <=2 clean-up ticks; bursts of 2-3 unary / bidi calls; <=1 outage with <=4 (5) calls around it",
+        "calls of one history are sequential except in bursts: 2-3 calls started together for a backend without a pooled connection, each held at the backend until all are in flight; the interleaving of their pool accesses cannot be steered, so every burst is played several times; per-call behaviours run 8 at a time over warmed-up connections",
+        "outages: the backend's listener is closed (all its connections die) and later reopened on the same address; nothing is asserted about the status of a call whose backend does not listen, except that nobody else serves it; after the recovery a call must get through within 20 s (gRPC's reconnect back-off is ~1-3 s); from then on connections OPEN AT THE BACKEND'S LISTENER are counted (<=1 while in the table, observed for 2.5 s / 4 s after recovery and after the clean-up; 0 after it left the table and the clean-up ran), not dials",
+        "after a burst the backend must have exactly one open connection within 5 s",
         "a message token stands for a protobuf message with a seeded payload of 0 B .. 70 KB (1 MiB now and then in thorough), below the configured 4 MiB limit",
-        "dsthost itself, transport-level metadata (user-agent, content-type, :authority) and status details are not compared; NotFound is checked by code only",
+        "the routing hint dsthost is compared like any other metadata of the caller; transport-level metadata (user-agent, content-type, :authority) and status details are not compared; NotFound is checked by code only",
         "a backend that was missing from a table since its connection was made may have lost the connection to the proxy's own 5 s timer at any time: its next call may dial once or reuse (spec: conn = may)",
         "the clean-up is waited for at most 17 s (5 s period + 0.3 s grace + slack); closure is observed at the backend's socket",
     ]
@@ -190,7 +195,7 @@ def run(ctx):
         ctx.inconclusive("the generator produced no behaviour with a closing clean-up tick")
         return
     if not ctx.thorough:
-        plain = plain[:1200]
+        plain = plain[:700]
     # bursts: every distinct one (the interleaving inside the proxy cannot be steered: played several times)
     def key(b):
         return json.dumps(b["steps"], sort_keys=True)
@@ -200,9 +205,9 @@ def run(ctx):
     burst_tick = [b for b in bursts if effective_ticks(b) == 1 and b["steps"][-1]["op"] == "tick"
                   and any(s["op"] == "burst" and s["be"] in b["steps"][-1]["closed"] for s in b["steps"])]
     if not ctx.thorough:
-        burst_plain = burst_plain[:40]
+        burst_plain = burst_plain[:24]
     for b in burst_plain:
-        b["repeat"] = ctx.pick(3, 5)
+        b["repeat"] = ctx.pick(2, 5)
     burst_tick = burst_tick[:ctx.pick(1, 3)]
     # outages: the history that matters most first -- calls refused during the outage, recovery, the
     # backend leaves the table, clean-up -- then other shapes
@@ -259,7 +264,7 @@ def run(ctx):
             % (s["behaviours"], s["calls"], s["messages"], s["ticks"], s["bursts"], s["outages"], s["fails"], r.wall))
     ctx.cover(traces_validated_against_impl=s["behaviours"], evaluations=s["calls"], distinct_nontrivial=s["distinct_nontrivial"],
               samples=s.get("samples") or [], exhaustive=bool(ctx.thorough),
-              rule="one behaviour per transition TLC examined that completes a call or a closing clean-up tick (shortest history to the source state + that step); per-call universe complete, histories complete in thorough and a seeded slice in quick; non-trivial = distinct behaviour with a routed call that moved >=2 messages")
+              rule="one behaviour per transition TLC examined that completes a call, a burst or a closing clean-up tick (shortest history to the source state + that step); per-call universe complete, histories complete in thorough and a seeded slice in quick, bursts distinct ones (24 in quick) x 2-5 plays, outages chosen by shape (refused calls + recovery + leaving + clean-up first); non-trivial = distinct behaviour with a routed call that moved >=2 messages, or a burst")
     ctx.take_failures(r, "c16")
     if s.get("aborted"):
         ctx.inconclusive("replay stopped early: %s" % s["aborted"])
